@@ -115,7 +115,10 @@ func c40HandleEOD(context *EncoderContext, buffer []byte) error {
 		for len(buffer) >= 3 {
 			buffer = c40WriteNextTriplet(context, buffer)
 		}
-		if context.HasMoreCharacters() {
+		// The last character goes to ASCII encodation. Without an unlatch it must fit the one codeword
+		// that is left, which an extended character (upper shift + codeword) does not.
+		if context.HasMoreCharacters() ||
+			HighLevelEncoder_isExtendedASCII(context.GetMessage()[context.pos-1]) {
 			context.WriteCodeword(HighLevelEncoder_C40_UNLATCH)
 		}
 		// else no unlatch
